@@ -133,7 +133,10 @@ from .iter_elim import (
     index_access,
     is_access_path,
     may_mutate,
+    path_names,
     plan_for_zip,
+    stage_scopes,
+    unshadow,
 )
 
 
@@ -231,14 +234,16 @@ class _ZipElimInstance(DefaultTransformVisitor):
         new_iterables: list[Expr] = []
         subst: dict[NamedId, Expr] = {}
 
-        for target, iterable in zip(e.targets, e.iterables):
+        scopes = stage_scopes(e)
+        for target, iterable, captured in zip(e.targets, e.iterables, scopes):
             new_iter = self._visit_expr(iterable, ctx)
             # A later stage's iterable may reference an earlier stage's
             # target (``[... for a, b in zip(xs, ys) for c in a]``), whose
             # name no longer exists once that stage is rewritten.
             if subst:
                 new_iter = SubstNames(subst)._visit_expr(new_iter, ctx)
-            rewritten = self._rewrite_comp_stage(target, new_iter, subst)
+            unshadow(subst, target)
+            rewritten = self._rewrite_comp_stage(target, new_iter, subst, captured)
             if rewritten is None:
                 new_targets.append(self._visit_binding(target, ctx))
                 new_iterables.append(new_iter)
@@ -259,6 +264,7 @@ class _ZipElimInstance(DefaultTransformVisitor):
         target: Id | TupleBinding,
         iterable: Expr,
         subst: dict[NamedId, Expr],
+        captured: set[NamedId],
     ) -> tuple[Id, Expr] | None:
         """The rewritten ``(target, iterable)`` for one comprehension stage,
         extending *subst* with the accessors its slots need; ``None`` to leave
@@ -271,6 +277,10 @@ class _ZipElimInstance(DefaultTransformVisitor):
         if not all(is_access_path(a) for a in plan.args):
             return None
 
+        # An accessor `src[_i]` lands inside the stage's scope: a source name
+        # re-bound there cannot be inlined.
+        if any(n in captured for a in plan.args for n in path_names(a)):
+            return None
         idx = self.gensym.fresh('_i')
         if plan.tupled:
             # A whole-element slot is a name or a discard, so no `fst`/`snd`
